@@ -411,8 +411,8 @@ func (f *baseJsFuncObject) __call(args []Value, newTarget, this Value) (Value, *
 		vm.sp++
 	}
 
+	defer vm.leaveTryFrame(len(vm.tryStack))
 	vm.pushTryFrame(tryPanicMarker, -1)
-	defer vm.popTryFrame()
 
 	var needPop bool
 	if vm.prg != nil {
